@@ -30,7 +30,7 @@ EXPLANATION = ("history quantifier discharged by a ghost invariant on the class-
 
 
 def obligations(ctx):
-    return ctx.verify(FUNCTIONS) + census(ctx) + lemmas(ctx)
+    return ctx.verify(FUNCTIONS) + ctx.part(census) + ctx.part(lemmas)
 
 
 def census(ctx):
